@@ -205,11 +205,11 @@ CIRC = "cirkit/symbolic/circuit.py"
 
 MUTATIONS += [
     # R4b: layer forward contracts
-    dict(id="r4b-sum-permute", file=TINNER, old="        x = x.permute(0, 2, 1, 3).flatten(start_dim=2)\n        weight = self.weight()\n        return self.semiring.einsum(\n            \"fbi,foi->fbo\"", new="        x = x.permute(2, 0, 1, 3).flatten(start_dim=2)\n        weight = self.weight()\n        return self.semiring.einsum(\n            \"fbi,foi->fbo\"", expect={"C01": ["R4b:cirkit.backend.torch.layers.inner.TorchSumLayer:forward"]}),
-    dict(id="r4b-sum-einsum-letters", file=TINNER, old="            \"fbi,foi->fbo\", inputs=(x,), operands=(weight,), dim=-1, keepdim=True\n        )  # shape (F, B, K_o).\n\n    def sample", new="            \"fbi,fio->fbo\", inputs=(x,), operands=(weight,), dim=-1, keepdim=True\n        )  # shape (F, B, K_o).\n\n    def sample", expect={"C01": ["R4b:cirkit.backend.torch.layers.inner.TorchSumLayer:forward"]}),
+    dict(id="r4b-sum-permute", file=TINNER, old="        x = x.permute(0, 2, 1, 3).flatten(start_dim=2)\n        weight = self.weight()\n        return self.semiring.einsum(\n            \"fbi,foi->fbo\"", new="        x = x.permute(2, 0, 1, 3).flatten(start_dim=2)\n        weight = self.weight()\n        return self.semiring.einsum(\n            \"fbi,foi->fbo\"", expect={"C01": ["R4b:cirkit.backend.torch.layers.inner.TorchSumLayer:forward"]}, allow_others=True),
+    dict(id="r4b-sum-einsum-letters", file=TINNER, old="            \"fbi,foi->fbo\", inputs=(x,), operands=(weight,), dim=-1, keepdim=True\n        )  # shape (F, B, K_o).\n\n    def sample", new="            \"fbi,fio->fbo\", inputs=(x,), operands=(weight,), dim=-1, keepdim=True\n        )  # shape (F, B, K_o).\n\n    def sample", expect={"C01": ["R4b:cirkit.backend.torch.layers.inner.TorchSumLayer:forward"]}, allow_others=True),
     dict(id="r4b-gaussian-unsqueeze", file=TINPUT, old="        mean = self.mean().unsqueeze(dim=1)  # (F, 1, K)", new="        mean = self.mean().unsqueeze(dim=2)  # (F, 1, K)", expect={"C01": ["R4b:cirkit.backend.torch.layers.input.TorchGaussianLayer:"]}, allow_others=True),
     dict(id="r4b-constant-expand", file=TINPUT, old="        value = value.unsqueeze(dim=1).expand(value.shape[0], batch_size, value.shape[1])", new="        value = value.unsqueeze(dim=0).expand(value.shape[0], batch_size, value.shape[1])", expect={"C01": ["R4b:cirkit.backend.torch.layers.input.TorchConstantValueLayer:forward"]}),
-    dict(id="r4b-tucker-view", file=TOPT, old="            -1,\n            self.num_output_units,\n            *(self.num_input_units for _ in range(self.arity)),", new="            -1,\n            self.num_input_units,\n            *(self.num_input_units for _ in range(self.arity)),", expect={"C01": ["R4b:cirkit.backend.torch.layers.optimized.TorchTuckerLayer:forward"]}),
+    dict(id="r4b-tucker-view", file=TOPT, old="            -1,\n            self.num_output_units,\n            *(self.num_input_units for _ in range(self.arity)),", new="            -1,\n            self.num_input_units,\n            *(self.num_input_units for _ in range(self.arity)),", expect={"C01": ["R4b:cirkit.backend.torch.layers.optimized.TorchTuckerLayer:forward"]}, allow_others=True),
     dict(id="r4b-tensordot-permute", file=TOPT, old="        x = x.permute(0, 1, 3, 2)", new="        x = x.permute(0, 1, 2, 3)", expect={"C01": ["R4b:cirkit.backend.torch.layers.optimized.TorchTensorDotLayer:forward"]}),
     # R4c / R4q: marginal queries
     dict(id="r4c-cat-logpart-axis", file=TINPUT, old="        return torch.logsumexp(logits, dim=2).unsqueeze(dim=1)", new="        return torch.logsumexp(logits, dim=1).unsqueeze(dim=1)", expect={"C11": ["R4c:cirkit.backend.torch.layers.input.TorchCategoricalLayer:"]}, allow_others=True),
@@ -219,7 +219,7 @@ MUTATIONS += [
     dict(id="r4s-cat-sample-permute", file=TINPUT, old="        dist = distributions.Categorical(logits=logits)\n        # samples: (N, F, K)\n        samples = dist.sample((num_samples,))\n        samples = samples.permute(1, 2, 0)", new="        dist = distributions.Categorical(logits=logits)\n        # samples: (N, F, K)\n        samples = dist.sample((num_samples,))\n        samples = samples.permute(2, 1, 0)", expect={"C15": ["R4s:cirkit.backend.torch.layers.input.TorchCategoricalLayer:sample"]}),
     dict(id="r4q-pad-zeros", file=QUER, old="            (*samples.shape, len(self._circuit.scope)),", new="            (len(self._circuit.scope), *samples.shape),", expect={"C15": ["R4q:cirkit.backend.torch.queries.SamplingQuery._pad_samples:pad"]}),
     # R4a: parameter operators
-    dict(id="r4a-outer-unsqueeze", file=TNODES, old="        x2 = x2.unsqueeze(self.dim + 1)  # (F, K1, K2, ..., 1, Ki2, ...., Kn)", new="        x2 = x2.unsqueeze(self.dim + 2)  # (F, K1, K2, ..., 1, Ki2, ...., Kn)", expect={"C14": ["R4a:cirkit.backend.torch.parameters.nodes.TorchOuterProductParameter:forward"]}),
+    dict(id="r4a-outer-unsqueeze", file=TNODES, old="        x2 = x2.unsqueeze(self.dim + 1)  # (F, K1, K2, ..., 1, Ki2, ...., Kn)", new="        x2 = x2.unsqueeze(self.dim + 2)  # (F, K1, K2, ..., 1, Ki2, ...., Kn)", expect={"C14": ["R4a:cirkit.backend.torch.parameters.nodes.TorchOuterProductParameter:forward"]}, allow_others=True),
     dict(id="r4a-mixing-permute", file=TNODES, old="        return diag_weights.permute(0, 2, 1, 3).flatten(start_dim=2)", new="        return diag_weights.permute(0, 2, 1, 3).flatten(start_dim=1)", expect={"C14": ["R4a:cirkit.backend.torch.parameters.nodes.TorchMixingWeightParameter:forward"]}, allow_others=True),
     dict(id="r4a-gauss-mean-view", file=TNODES, old="        return mean.view(-1, *self.shape)  # (F, K1 * K2, C)", new="        return mean  # (F, K1 * K2, C)", expect={"C14": ["R4a:cirkit.backend.torch.parameters.nodes.TorchGaussianProductMean:forward"]}),
     # R4p / R4r
